@@ -469,5 +469,5 @@ def exhaustive(ctx):
 
 def run(ctx):
     exhaustive(ctx)
-    run_cases(ctx, expr_case_strategy(6), guarded(ctx, check_case), ctx.budget(5000, 400000), salt="e")
-    run_cases(ctx, nest_case_strategy(), guarded(ctx, check_case), ctx.budget(800, 40000), salt="n")
+    run_cases(ctx, expr_case_strategy(6), guarded(ctx, check_case), ctx.budget(5000, 40000), salt="e")
+    run_cases(ctx, nest_case_strategy(), guarded(ctx, check_case), ctx.budget(800, 6400), salt="n")
